@@ -1,110 +1,17 @@
 import GuppyVerif.Model.Builder
-/-! # Specification vocabulary for C03 / C05 (import-free; the driver reports `hsClass`)
+/-! # Specification vocabulary for C03 / C05 (import-free)
 
-## The hoist-safe fragment
-
-`ExprBuilder` turns IfExp / `and` / `or` / chained comparisons / walrus into statements and blocks that
-are emitted *before* the statement containing the expression; what stays behind is the *residual*
-expression.  That is only Python's order if nothing that Python evaluates earlier is still waiting in
-the residual of a sibling to the left.  `hoistSafe` is the syntactic condition under which the theorems
-of `Props/C03.lean` and `Props/C05.lean` are proved; outside it the real builder (and this model of it)
-deviate from Python (defect D9), which `Props/C05.lean` proves on concrete programs.
-
-* `lifts e`      (Model/Builder.lean) — `e` contains a lifted construct anywhere.
-* `resCalls e`   — a call remains in the residual of `e` (a call outside every lifted construct).
-* `resReads e`   — variables the residual of `e` reads (a walrus leaves its target behind).
-* `writes e`     — all walrus targets in `e`.
-* `sib l r`      — `r` may follow `l` as operands of one node: if `r` lifts anything, then the residual of
-                   `l` has no call — or `r` makes no call at all, so that hoisting it is unobservable —
-                   and the residual of `l` reads nothing that `r` assigns.
-* a chained comparison `l o1 m o2 r` additionally needs `m` free of calls and lifted constructs (the real
-  builder evaluates `m` twice) and `sib m r` (the second evaluation of `m` happens after the hoisted part
-  of `r`). -/
+History.  Up to /repo commits f9e33c1 and 7c8aeda the builder hoisted lifted sub-expressions before
+side-effecting operands to their left and evaluated the middle operand of a chained comparison twice
+(defect D9); the theorems were then proved for a syntactic *hoist-safe* fragment only.  The repaired
+builder stores the operands in question in temporaries (`needBind`, `stable` in `Model/Builder.lean`),
+and the theorems of `Props/C03.lean` / `Props/C05.lean` hold for every surface program. -/
 namespace GuppyVerif.Builder
 open GuppyVerif.Surface
 
-def resCalls : Expr → Bool
-  | .var _ | .num _ | .bool _ => false
-  | .call0 _ => true
-  | .un o e => (match o with | .call1 _ => true | _ => false) || resCalls e
-  | .bi o l r => (match o with | .call2 _ => true | _ => false) || resCalls l || resCalls r
-  | .cmp2 .. | .and .. | .or .. | .ite .. | .walrus .. => false
-
-def anyCall : Expr → Bool
-  | .var _ | .num _ | .bool _ => false
-  | .call0 _ => true
-  | .un o e => (match o with | .call1 _ => true | _ => false) || anyCall e
-  | .bi o l r => (match o with | .call2 _ => true | _ => false) || anyCall l || anyCall r
-  | .cmp2 _ _ l m r => anyCall l || anyCall m || anyCall r
-  | .and l r | .or l r => anyCall l || anyCall r
-  | .ite t b o => anyCall t || anyCall b || anyCall o
-  | .walrus _ e => anyCall e
-
-def resReads : Expr → List Var
-  | .var x => [x]
-  | .num _ | .bool _ | .call0 _ => []
-  | .un _ e => resReads e
-  | .bi _ l r => resReads l ++ resReads r
-  | .walrus x _ => [x]
-  | .cmp2 .. | .and .. | .or .. | .ite .. => []
-
-def writes : Expr → List Var
-  | .var _ | .num _ | .bool _ | .call0 _ => []
-  | .un _ e => writes e
-  | .bi _ l r => writes l ++ writes r
-  | .cmp2 _ _ l m r => writes l ++ writes m ++ writes r
-  | .and l r | .or l r => writes l ++ writes r
-  | .ite t b o => writes t ++ writes b ++ writes o
-  | .walrus x e => x :: writes e
-
-def disjoint (a b : List Var) : Bool := a.all fun x => !b.contains x
-
-def sib (l r : Expr) : Bool := !lifts r || ((!resCalls l || !anyCall r) && disjoint (resReads l) (writes r))
-
-/-- hoist-safe expressions -/
-def hsE : Expr → Bool
-  | .var _ | .num _ | .bool _ | .call0 _ => true
-  | .un _ e => hsE e
-  | .bi _ l r => hsE l && hsE r && sib l r
-  | .cmp2 _ _ l m r => hsE l && hsE m && hsE r && sib l m && sib m r && !anyCall m && !lifts m
-  | .and l r | .or l r => hsE l && hsE r
-  | .ite t b o => hsE t && hsE b && hsE o
-  | .walrus _ e => hsE e
-
-/-- some chained comparison has a call in its middle operand (class `chained-compare-middle-twice`) -/
-def chainBad : Expr → Bool
-  | .var _ | .num _ | .bool _ | .call0 _ => false
-  | .un _ e => chainBad e
-  | .bi _ l r => chainBad l || chainBad r
-  | .cmp2 _ _ l m r => anyCall m || chainBad l || chainBad m || chainBad r
-  | .and l r | .or l r => chainBad l || chainBad r
-  | .ite t b o => chainBad t || chainBad b || chainBad o
-  | .walrus _ e => chainBad e
-
-/-- hoist-safe programs: every expression is, and an augmented assignment whose right-hand side lifts
-    something does not assign its own target there (`x += (x := 5)` reads the old `x` in Python) -/
-def hoistSafe : Stmt → Bool
-  | .nil | .pass | .brk | .cont | .ret0 => true
-  | .cons s r => hoistSafe s && hoistSafe r
-  | .assign _ e | .expr e | .ret e => hsE e
-  | .aug x _ e => hsE e && (!lifts e || !(writes e).contains x)
-  | .ite c t e => hsE c && hoistSafe t && hoistSafe e
-  | .while c b => hsE c && hoistSafe b
-  | .for _ e b => hsE e && hoistSafe b
-  | .forFrom _ _ _ b => hoistSafe b
-
-def chainBadS : Stmt → Bool
-  | .nil | .pass | .brk | .cont | .ret0 => false
-  | .cons s r => chainBadS s || chainBadS r
-  | .assign _ e | .expr e | .ret e | .aug _ _ e => chainBad e
-  | .ite c t e => chainBad c || chainBadS t || chainBadS e
-  | .while c b => chainBad c || chainBadS b
-  | .for _ e b => chainBad e || chainBadS b
-  | .forFrom _ _ _ b => chainBadS b
-
-/-- verdict reported to the harness: `safe`, or the defect class that makes the program unsafe -/
-def hsClass (p : Stmt) : String :=
-  if chainBadS p then "chain" else if hoistSafe p then "safe" else "sibling"
+/-- verdict reported to the harness (protocol field kept from the time when a hoist-safe fragment existed):
+    every program is inside the fragment the theorems cover -/
+def hsClass (_p : Stmt) : String := "safe"
 
 /-! ## Surface programs: only user variables, no internal statement forms -/
 
